@@ -849,3 +849,358 @@ Print Assumptions C05_extrema_one_output_per_input_binary64.
 Print Assumptions C05_mask_cmp_family_option_binary64.
 Print Assumptions C05_extrema_one_output_per_input_option_binary64.
 Print Assumptions C05_some_nan_is_outside_the_property.
+
+(* ==================================================================================================================
+   (8) AUDIT (notes/C05.md "Audit matrix"; proofs: Proofs/Audit05.v).  What the clause-by-clause audit found missing:
+       (8a) window 0 for every entry point;  (8b) huge windows: every window beyond the length behaves like len + 1
+       (this is the equivalence the correspondence run relies on when it runs the code at w = 2^40 .. usize::MAX and the
+       model at w = len + 1);  (8c) the two-series functions on series of unequal length;  (8d) "null below
+       min_periods" at EVERY carrier without any order law for the entry points that had it at ordered carriers or
+       option R only;  (8e) min_periods above the window;  (8f) the outcome shape of every entry point.
+   ================================================================================================================== *)
+From Tevec Require Import Proofs.IdxRun Proofs.Kernels3 Proofs.Features2 Proofs.Audit01 Proofs.Audit03 Proofs.Audit04 Proofs.Audit05.
+
+(* (8a) window 0.  Every add-emit-remove entry point (the 8 null-aware and 8 plain moments / weighted means, z-score,
+   the 5 time-trend regressions: any feature F), the 5 two-series cross-sum entry points (any F over pairs), the 3
+   residual statistics, and the index-form family: the empty result iff the (first) series is empty, else the driver's
+   `assert!(window > 0 || len == 0)` — both bodies, every carrier.  The two fractional differences are the exception:
+   their iterator body computes `window - 1` first and panics with "subtract with overflow" EVEN ON THE EMPTY SERIES. *)
+Theorem C05_window_zero_every_entry_point :
+  forall (A : Type) (NA : Num A) (T : Type) (DT : IsNone T A) (T2 : Type) (D2 : IsNone T2 A),
+    (forall (St O : Type) (F : feat T St O) (body : bool) (xs : list T),
+        ts_run F body 0 xs = match xs with [] => Done [] | _ :: _ => Panicked AssertFail end) /\
+    (forall (St O : Type) (F : feat (T * T2) St O) (body : bool) (xs : list T) (ys : list T2),
+        ts_run2 F body 0 xs ys = match xs with [] => Done [] | _ :: _ => Panicked AssertFail end) /\
+    (forall (k : rstat) (body : bool) (mp : option nat) (xs : list T) (ys : list T2),
+        ts_vregx_resid k body 0 mp xs ys = match xs with [] => Done [] | _ :: _ => Panicked AssertFail end) /\
+    (forall (B : Type) (NB : Num B) (body : bool) (mp : option nat) (pct rev : bool) (tmin tmax : A) (xs : list T),
+        xs <> [] ->
+        ts_vmin body 0 mp xs = Panicked AssertFail /\ ts_vmax body 0 mp xs = Panicked AssertFail /\
+        ts_vargmin body 0 mp xs = Panicked AssertFail /\ ts_vargmax body 0 mp xs = Panicked AssertFail /\
+        ts_vrank (B := B) body 0 mp pct rev xs = Panicked AssertFail /\
+        ts_vminmaxnorm tmin tmax body 0 mp xs = Panicked AssertFail) /\
+    (forall (d : A) (cast : T -> A) (mp : option nat) (xs : list T),
+        ts_fdiff false d 0 cast xs = Panicked Underflow /\ ts_vfdiff false d 0 mp xs = Panicked Underflow /\
+        (xs <> [] -> ts_fdiff true d 0 cast xs = Panicked AssertFail /\ ts_vfdiff true d 0 mp xs = Panicked AssertFail)).
+Proof.
+  intros A NA T DT T2 D2.
+  split; [intros St O F body xs; apply Audit01.ts_run_window0|].
+  split; [intros St O F body xs ys; apply ts_run2_window0|].
+  split; [intros k body mp xs ys; apply resid_window0|].
+  split.
+  - intros B NB body mp pct rev tmin tmax xs Hx.
+    split; [apply (cmp_family_window0 sort_cmp); exact Hx|]. split; [apply (cmp_family_window0 sort_cmp_rev); exact Hx|].
+    split; [apply (cmp_family_window0 sort_cmp); exact Hx|]. split; [apply (cmp_family_window0 sort_cmp_rev); exact Hx|].
+    split; [apply vrank_window0; exact Hx|apply minmaxnorm_window0; exact Hx].
+  - intros d cast mp xs. apply fdiff_window0.
+Qed.
+
+(* (8b) huge windows.  (i) The driver: a feature run under ANY two windows beyond the length gives the same outcome (no
+   element is ever removed) and its window at position i is the whole prefix 0..=i.  (ii) The closures: with an EXPLICIT
+   min_periods the gate `min(mp, w) raised to k <= n` cannot tell two such windows apart, since n <= len < w.  Hence
+   for every w > len — w = 2^40, usize::MAX included — the call IS the call at w = len + 1: same panic / same outputs, for
+   every carrier (binary64 bit for bit), null dictionary (the plain twins are the instance IsNone_never) and both bodies. *)
+Theorem C05_huge_window_same_feature :
+  forall (T St O : Type) (F : feat T St O) (body : bool) (w1 w2 : nat) (xs : list T),
+    length xs < w1 -> length xs < w2 -> ts_run F body w1 xs = ts_run F body w2 xs.
+Proof. exact @ts_run_large_window. Qed.
+
+Theorem C05_huge_window_is_expanding :
+  forall (T : Type) (w i : nat) (xs : list T), length xs < w -> i < length xs -> win w i xs = firstn (S i) xs.
+Proof. exact @win_large. Qed.
+
+Theorem C05_huge_window_moments :
+  forall (A : Type) (NA : Num A) (T : Type) (DT : IsNone T A) (body : bool) (w1 w2 m : nat) (xs : list T),
+    length xs < w1 -> length xs < w2 ->
+    ts_run (ts_vsum_f w1 (Some m)) body w1 xs = ts_run (ts_vsum_f w2 (Some m)) body w2 xs /\
+    ts_run (ts_vmean_f w1 (Some m)) body w1 xs = ts_run (ts_vmean_f w2 (Some m)) body w2 xs /\
+    ts_run (ts_vvar_f w1 (Some m)) body w1 xs = ts_run (ts_vvar_f w2 (Some m)) body w2 xs /\
+    ts_run (ts_vstd_f w1 (Some m)) body w1 xs = ts_run (ts_vstd_f w2 (Some m)) body w2 xs /\
+    ts_run (ts_vskew_f w1 (Some m)) body w1 xs = ts_run (ts_vskew_f w2 (Some m)) body w2 xs /\
+    ts_run (ts_vkurt_f w1 (Some m)) body w1 xs = ts_run (ts_vkurt_f w2 (Some m)) body w2 xs.
+Proof. intros A NA T DT. exact huge_window_moments. Qed.
+
+Theorem C05_huge_window_wma_zscore :
+  forall (A : Type) (NA : Num A) (T : Type) (DT : IsNone T A) (body : bool) (w1 w2 m : nat) (xs : list T),
+    length xs < w1 -> length xs < w2 ->
+    ts_run (ts_vwma_f w1 (Some m)) body w1 xs = ts_run (ts_vwma_f w2 (Some m)) body w2 xs /\
+    ts_vzscore body w1 (Some m) xs = ts_vzscore body w2 (Some m) xs.
+Proof.
+  intros A NA T DT body w1 w2 m xs H1 H2. split; [apply huge_window_wma|apply huge_window_zscore]; assumption.
+Qed.
+
+Theorem C05_huge_window_trend :
+  forall (A : Type) (NA : Num A) (T : Type) (DT : IsNone T A) (body : bool) (w1 w2 m : nat) (xs : list T),
+    length xs < w1 -> length xs < w2 ->
+    ts_run (ts_vreg_f w1 (Some m)) body w1 xs = ts_run (ts_vreg_f w2 (Some m)) body w2 xs /\
+    ts_run (ts_vtsf_f w1 (Some m)) body w1 xs = ts_run (ts_vtsf_f w2 (Some m)) body w2 xs /\
+    ts_run (ts_vreg_slope_f w1 (Some m)) body w1 xs = ts_run (ts_vreg_slope_f w2 (Some m)) body w2 xs /\
+    ts_run (ts_vreg_intercept_f w1 (Some m)) body w1 xs = ts_run (ts_vreg_intercept_f w2 (Some m)) body w2 xs /\
+    ts_run (ts_vreg_resid_mean_f w1 (Some m)) body w1 xs = ts_run (ts_vreg_resid_mean_f w2 (Some m)) body w2 xs.
+Proof. intros A NA T DT. exact huge_window_trends. Qed.
+
+Theorem C05_huge_window_two_series :
+  forall (A : Type) (NA : Num A) (T1 : Type) (D1 : IsNone T1 A) (T2 : Type) (D2 : IsNone T2 A)
+         (body : bool) (w1 w2 m : nat) (xs : list T1) (ys : list T2),
+    length xs < w1 -> length xs < w2 ->
+    ts_run2 (ts_vcov_f (D1 := D1) (D2 := D2) w1 (Some m)) body w1 xs ys
+      = ts_run2 (ts_vcov_f (D1 := D1) (D2 := D2) w2 (Some m)) body w2 xs ys /\
+    ts_run2 (ts_vcorr_f (D1 := D1) (D2 := D2) w1 (Some m)) body w1 xs ys
+      = ts_run2 (ts_vcorr_f (D1 := D1) (D2 := D2) w2 (Some m)) body w2 xs ys /\
+    ts_run2 (ts_vregx_alpha_f (D1 := D1) (D2 := D2) w1 (Some m)) body w1 xs ys
+      = ts_run2 (ts_vregx_alpha_f (D1 := D1) (D2 := D2) w2 (Some m)) body w2 xs ys /\
+    ts_run2 (ts_vregx_beta_f (D1 := D1) (D2 := D2) w1 (Some m)) body w1 xs ys
+      = ts_run2 (ts_vregx_beta_f (D1 := D1) (D2 := D2) w2 (Some m)) body w2 xs ys /\
+    ts_run2 (ts_vregx_all_f (D1 := D1) (D2 := D2) w1 (Some m)) body w1 xs ys
+      = ts_run2 (ts_vregx_all_f (D1 := D1) (D2 := D2) w2 (Some m)) body w2 xs ys.
+Proof. intros A NA T1 D1 T2 D2. exact huge_window_two_series. Qed.
+
+(* the index-form entry points whose window is not clamped *)
+Theorem C05_huge_window_minmaxnorm_resid :
+  forall (A : Type) (NA : Num A) (T1 : Type) (D1 : IsNone T1 A) (T2 : Type) (D2 : IsNone T2 A)
+         (body : bool) (w1 w2 m : nat) (xs : list T1) (ys : list T2),
+    length xs < w1 -> length xs < w2 ->
+    (forall tmin tmax : A, ts_vminmaxnorm tmin tmax body w1 (Some m) xs = ts_vminmaxnorm tmin tmax body w2 (Some m) xs) /\
+    (forall k : rstat, ts_vregx_resid (D1 := D1) (D2 := D2) k body w1 (Some m) xs ys
+                       = ts_vregx_resid (D1 := D1) (D2 := D2) k body w2 (Some m) xs ys).
+Proof.
+  intros A NA T1 D1 T2 D2 body w1 w2 m xs ys H1 H2.
+  split; [intros tmin tmax; apply huge_window_minmaxnorm|intros k; apply huge_window_resid]; assumption.
+Qed.
+
+(* the extrema / arg-extrema / rank family clamps the window to the length: EVERY w >= len is w = len — for an omitted
+   min_periods too (this is also C03_window_clamped_to_length) *)
+Theorem C05_huge_window_cmp_family :
+  forall (A : Type) (NA : Num A) (T : Type) (DT : IsNone T A) (body : bool) (w : nat) (mp : option nat) (xs : list T),
+    length xs <= w ->
+    ts_vmin body w mp xs = ts_vmin body (length xs) mp xs /\
+    ts_vmax body w mp xs = ts_vmax body (length xs) mp xs /\
+    ts_vargmin body w mp xs = ts_vargmin body (length xs) mp xs /\
+    ts_vargmax body w mp xs = ts_vargmax body (length xs) mp xs /\
+    (forall (B : Type) (NB : Num B) (pct rev : bool),
+        ts_vrank (B := B) body w mp pct rev xs = ts_vrank (B := B) body (length xs) mp pct rev xs).
+Proof. intros A NA T DT. exact huge_window_cmp_family. Qed.
+
+(* the two restrictions are needed: an omitted min_periods is floor(w/2) and grows with the window (so for w >= 2 len + 2
+   every output is null), and the weights of the exponentially weighted mean are powers of 1 - 2/w *)
+Theorem C05_huge_window_needs_explicit_min_periods :
+  ts_run (ts_vsum_f (A := Z) (DT := IsNone_option) 3 None) true 3 [Some 1%Z; Some 2%Z]
+  <> ts_run (ts_vsum_f (A := Z) (DT := IsNone_option) 9 None) true 9 [Some 1%Z; Some 2%Z].
+Proof. exact huge_window_omitted_differs. Qed.
+Theorem C05_huge_window_not_for_ewm :
+  ts_run (ts_vewm_f (A := Z) (DT := IsNone_option) 2 (Some 1)) true 2 [Some 5%Z]
+  <> ts_run (ts_vewm_f (A := Z) (DT := IsNone_option) 3 (Some 1)) true 3 [Some 5%Z].
+Proof. exact huge_window_ewm_differs. Qed.
+
+(* (8c) two-series functions on series of UNEQUAL length.  Accepted inputs: the iterator body (returned result of a
+   non-Vec backend) takes any lengths and silently stops at the shorter series; the index body (Vec / ndarray / caller
+   buffer) asserts `other.len() >= len` first (C04_two_series_first_failing_check has the order of the checks).  On
+   every accepted input the masks (4e) hold on the common prefix — the hypothesis `length xs = length ys` is dropped. *)
+Theorem C05_two_series_every_input :
+  forall (T1 T2 St O : Type) (F : feat (T1 * T2) St O) (body : bool) (w : nat) (xs : list T1) (ys : list T2),
+    match check2 body w xs ys with
+    | Some g => ts_run2 F body w xs ys = Panicked (guard_kind g)
+    | None => exists l, ts_run2 F body w xs ys = Done l /\ length l = Nat.min (length xs) (length ys)
+    end.
+Proof. exact @ts_run2_by_check. Qed.
+
+(* "exactly one output per input element" is therefore FALSE of the first series when the second is shorter and the
+   iterator body runs: fewer outputs than inputs, no panic (replayed on the real code by the C04 / C05 runs) *)
+Theorem C05_shorter_second_series_iterator_body_fewer_outputs :
+  forall (T1 T2 St O : Type) (F : feat (T1 * T2) St O) (w : nat) (xs : list T1) (ys : list T2),
+    1 <= w -> length ys < length xs ->
+    exists out, ts_run2 F false w xs ys = Done out /\ length out = length ys /\ length out < length xs.
+Proof. exact @shorter_second_iterator_truncates. Qed.
+
+Theorem C05_mask_ts_vcov_any_lengths :
+  forall (body : bool) (w : nat) (mp : option nat) (xs ys : list XR),
+    1 <= w -> (body = false \/ length xs <= length ys) ->
+    exists out, ts_run2 (ts_vcov_f w mp) body w xs ys = Done out /\ length out = Nat.min (length xs) (length ys) /\
+      forall i, i < Nat.min (length xs) (length ys) ->
+        exists o, nth_error out i = Some o /\
+          is_null o = (length (pairs (win w i xs) (win w i ys)) <? mp_eff mp w 2).
+Proof. exact mask_vcov_any_lengths. Qed.
+
+Theorem C05_mask_ts_vcorr_any_lengths :
+  forall (body : bool) (w : nat) (mp : option nat) (xs ys : list XR),
+    1 <= w -> (body = false \/ length xs <= length ys) ->
+    exists out, ts_run2 (ts_vcorr_f w mp) body w xs ys = Done out /\ length out = Nat.min (length xs) (length ys) /\
+      forall i, i < Nat.min (length xs) (length ys) ->
+        exists o, nth_error out i = Some o /\
+          (is_null o = true <->
+           length (pairs (win w i xs) (win w i ys)) < mp_eff mp w 0 \/
+           (popvarR (map fst (pairs (win w i xs) (win w i ys))) <= EPS)%R \/
+           (popvarR (map snd (pairs (win w i xs) (win w i ys))) <= EPS)%R).
+Proof. exact mask_vcorr_any_lengths. Qed.
+
+Theorem C05_mask_ts_vregx_any_lengths :
+  forall (body : bool) (w : nat) (mp : option nat) (xs ys : list XR),
+    1 <= w -> (body = false \/ length xs <= length ys) ->
+    (exists out, ts_run2 (ts_vregx_alpha_f w mp) body w xs ys = Done out /\ length out = Nat.min (length xs) (length ys) /\
+       forall i, i < Nat.min (length xs) (length ys) ->
+         exists o, nth_error out i = Some o /\
+           (is_null o = true <->
+            length (pairs (win w i xs) (win w i ys)) < mp_eff mp w 0 \/ detB (pairs (win w i xs) (win w i ys)) = 0%R)) /\
+    (exists out, ts_run2 (ts_vregx_beta_f w mp) body w xs ys = Done out /\ length out = Nat.min (length xs) (length ys) /\
+       forall i, i < Nat.min (length xs) (length ys) ->
+         exists o, nth_error out i = Some o /\
+           (is_null o = true <->
+            length (pairs (win w i xs) (win w i ys)) < mp_eff mp w 0 \/ detB (pairs (win w i xs) (win w i ys)) = 0%R)) /\
+    (exists out, ts_run2 (ts_vregx_all_f w mp) body w xs ys = Done out /\ length out = Nat.min (length xs) (length ys) /\
+       forall i, i < Nat.min (length xs) (length ys) ->
+         exists o, nth_error out i = Some o /\
+           (is_null (fst (fst o)) = true <->
+            length (pairs (win w i xs) (win w i ys)) < mp_eff mp w 0 \/ detB (pairs (win w i xs) (win w i ys)) = 0%R) /\
+           (is_null (snd (fst o)) = true <->
+            length (pairs (win w i xs) (win w i ys)) < mp_eff mp w 0 \/ detB (pairs (win w i xs) (win w i ys)) = 0%R) /\
+           (is_null (snd o) = true <->
+            length (pairs (win w i xs) (win w i ys)) < mp_eff mp w 0 \/ detB (pairs (win w i xs) (win w i ys)) = 0%R)).
+Proof. exact mask_vregx_any_lengths. Qed.
+
+Theorem C05_mask_ts_vregx_resid_any_lengths :
+  forall (k : rstat) (body : bool) (w : nat) (mp : option nat) (xs ys : list XR),
+    1 <= w -> (body = false \/ length xs <= length ys) ->
+    exists out, ts_vregx_resid k body w mp xs ys = Done out /\ length out = Nat.min (length xs) (length ys) /\
+      forall i, i < Nat.min (length xs) (length ys) ->
+        exists o, nth_error out i = Some o /\
+          (is_null o = true <->
+           length (pairs (win w i xs) (win w i ys)) < mp_eff mp w 0 \/ detB (pairs (win w i xs) (win w i ys)) = 0%R \/
+           (k = RSkew /\ length (pairs (win w i xs) (win w i ys)) < 3)).
+Proof. exact mask_vregx_resid_any_lengths. Qed.
+
+(* (8d) "null below min_periods" at EVERY carrier — no order law, no premise on the data.  `nvalid_win w i xs` = number of
+   non-null elements of the window.  ts_vmin / ts_vmax: in particular on Option<f64> series WITH Some(NaN) elements (which
+   the ordered theorems (7) exclude); ts_vargmin / ts_vargmax need that a non-null element equals itself (`self_eq_on`:
+   every integer, every f64 series with NaN as the null; false only for Some(NaN), where the model does not return);
+   ts_vminmaxnorm: whatever the sentinels; ts_vfdiff: whatever the order d (a null d included).  For the other families
+   the same statement is C01_below_min_periods_is_nan_every_carrier (8 moment / weighted entry points),
+   C03_zscore_nan_every_carrier, C04_below_min_periods_null_any_carrier (cov, corr, regx alpha / beta / all),
+   C04_trend_below_min_periods_null_any_carrier, C04_resid_below_min_periods_null_any_carrier; ts_vrank:
+   C06_ts_vrank_is_a_function_of_the_window. *)
+Theorem C05_below_min_periods_null_every_carrier_extrema :
+  forall (A : Type) (NA : Num A) (T : Type) (DT : IsNone T A) (body : bool) (w : nat) (mp : option nat) (xs : list T),
+    1 <= w ->
+    (exists out, ts_vmin body w mp xs = Done out /\ length out = length xs /\
+       forall i, i < length xs -> nvalid_win w i xs < cmp_mp mp (cmp_window w xs) -> nth_error out i = Some None) /\
+    (exists out, ts_vmax body w mp xs = Done out /\ length out = length xs /\
+       forall i, i < length xs -> nvalid_win w i xs < cmp_mp mp (cmp_window w xs) -> nth_error out i = Some None).
+Proof. intros A NA T DT body w mp xs Hw. split; apply ts_vext_below_null; exact Hw. Qed.
+
+Theorem C05_below_min_periods_null_every_carrier_arg_extrema :
+  forall (A : Type) (NA : Num A) (T : Type) (DT : IsNone T A) (body : bool) (w : nat) (mp : option nat) (xs : list T),
+    1 <= w -> self_eq_on xs ->
+    (exists out, ts_vargmin body w mp xs = Done out /\ length out = length xs /\
+       forall i, i < length xs -> nvalid_win w i xs < cmp_mp mp (cmp_window w xs) -> nth_error out i = Some None) /\
+    (exists out, ts_vargmax body w mp xs = Done out /\ length out = length xs /\
+       forall i, i < length xs -> nvalid_win w i xs < cmp_mp mp (cmp_window w xs) -> nth_error out i = Some None).
+Proof.
+  intros A NA T DT body w mp xs Hw Hs.
+  split; apply ts_varg_below_null; try exact Hw; [apply sort_cmp_refl_on|apply sort_cmp_rev_refl_on]; exact Hs.
+Qed.
+
+Theorem C05_below_min_periods_null_every_carrier_minmaxnorm :
+  forall (A : Type) (NA : Num A) (T : Type) (DT : IsNone T A) (tmin tmax : A) (body : bool) (w : nat)
+         (mp : option nat) (xs : list T),
+    1 <= w ->
+    exists out, ts_vminmaxnorm tmin tmax body w mp xs = Done out /\ length out = length xs /\
+      forall i, i < length xs -> nvalid_win w i xs < mp_eff mp w 0 -> nth_error out i = Some nnan.
+Proof. intros A NA T DT. exact ts_vminmaxnorm_below_null. Qed.
+
+Theorem C05_below_min_periods_null_every_carrier_vfdiff :
+  forall (A : Type) (NA : Num A) (T : Type) (DT : IsNone T A) (body : bool) (d : A) (w : nat) (mp : option nat)
+         (xs : list T),
+    1 <= w ->
+    exists out, ts_vfdiff body d w mp xs = Done out /\ length out = length xs /\
+      forall i, i < length xs -> nvalid_win w i xs < mp_eff mp w 0 -> nth_error out i = Some nnan.
+Proof. intros A NA T DT. exact ts_vfdiff_below_null. Qed.
+
+(* (8e) min_periods above the window.  Every entry point with `.min(window)` treats it as min_periods = window (the 8
+   moment / weighted entry points: C01_min_periods_above_window; here the other 17): the SAME feature record / the same
+   call.  The extrema / rank family does not clamp: every output is null (C03_min_periods_above_window_all_null). *)
+Theorem C05_min_periods_above_window :
+  forall (A : Type) (NA : Num A) (T : Type) (DT : IsNone T A) (T2 : Type) (D2 : IsNone T2 A) (w m : nat),
+    w <= m ->
+    ts_vzscore_f (DT := DT) w (Some m) = ts_vzscore_f w (Some w) /\
+    ts_vreg_f (DT := DT) w (Some m) = ts_vreg_f w (Some w) /\
+    ts_vtsf_f (DT := DT) w (Some m) = ts_vtsf_f w (Some w) /\
+    ts_vreg_slope_f (DT := DT) w (Some m) = ts_vreg_slope_f w (Some w) /\
+    ts_vreg_intercept_f (DT := DT) w (Some m) = ts_vreg_intercept_f w (Some w) /\
+    ts_vreg_resid_mean_f (DT := DT) w (Some m) = ts_vreg_resid_mean_f w (Some w) /\
+    ts_vcov_f (D1 := DT) (D2 := D2) w (Some m) = ts_vcov_f w (Some w) /\
+    ts_vcorr_f (D1 := DT) (D2 := D2) w (Some m) = ts_vcorr_f w (Some w) /\
+    ts_vregx_alpha_f (D1 := DT) (D2 := D2) w (Some m) = ts_vregx_alpha_f w (Some w) /\
+    ts_vregx_beta_f (D1 := DT) (D2 := D2) w (Some m) = ts_vregx_beta_f w (Some w) /\
+    ts_vregx_all_f (D1 := DT) (D2 := D2) w (Some m) = ts_vregx_all_f w (Some w) /\
+    (forall tmin tmax body xs, ts_vminmaxnorm (DT := DT) tmin tmax body w (Some m) xs
+                               = ts_vminmaxnorm tmin tmax body w (Some w) xs) /\
+    (forall k body xs ys, ts_vregx_resid (D1 := DT) (D2 := D2) k body w (Some m) xs ys
+                          = ts_vregx_resid k body w (Some w) xs ys) /\
+    (forall body d xs, ts_vfdiff (DT := DT) body d w (Some m) xs = ts_vfdiff body d w (Some w) xs).
+Proof. intros A NA T DT T2 D2. exact min_periods_above_window_rest. Qed.
+
+(* (8f) the outcome shape of the one-series entry points on EVERY input and carrier: a fully written result with one output
+   per input, or — only for window 0 on a non-empty series — the driver's assertion; never a panic inside a closure,
+   never an unwritten slot.  Any add-emit-remove feature (26 entry points); ts_vmin / ts_vmax / ts_vrank / ts_vminmaxnorm
+   with no premise (also C10_ts_v*_safe); ts_vargmin / ts_vargmax need `self_eq_on` (C05_some_nan_is_outside_the_property
+   is the counterexample otherwise). *)
+Theorem C05_every_one_series_entry_point_outcome :
+  forall (A : Type) (NA : Num A) (T : Type) (DT : IsNone T A) (body : bool) (w : nat) (mp : option nat) (xs : list T),
+    (forall (St O : Type) (F : feat T St O), kernel_safe w xs (ts_run F body w xs)) /\
+    kernel_safe w xs (ts_vmin body w mp xs) /\ kernel_safe w xs (ts_vmax body w mp xs) /\
+    (forall (B : Type) (NB : Num B) (pct rev : bool), kernel_safe w xs (ts_vrank (B := B) body w mp pct rev xs)) /\
+    (forall tmin tmax : A, kernel_safe w xs (ts_vminmaxnorm tmin tmax body w mp xs)) /\
+    (self_eq_on xs -> kernel_safe w xs (ts_vargmin body w mp xs) /\ kernel_safe w xs (ts_vargmax body w mp xs)).
+Proof.
+  intros A NA T DT body w mp xs.
+  split; [intros St O F; apply ts_run_safe|]. split; [apply ts_vmin_safe|]. split; [apply ts_vmax_safe|].
+  split; [intros B NB pct rev; apply ts_vrank_safe|]. split; [intros tmin tmax; apply ts_vminmaxnorm_safe|].
+  intros Hs. split; [apply ts_vargmin_safe|apply ts_vargmax_safe]; exact Hs.
+Qed.
+
+(* non-vacuity of (8).  Huge windows: premises and both sides evaluated at binary64 (w = 3 = len + 1 against w = 50); unequal
+   lengths: second series shorter (iterator body) and longer (both bodies); below min_periods on an Option<f64> series that
+   holds Some(NaN): ts_vmin returns, null exactly where the theorem says (positions 0, 1: one valid element < 2) *)
+Example C05_example_huge_window_binary64 :
+  let xs := [1%float; nan; 3%float] in
+  length xs < 4 /\ length xs < 50 /\
+  ts_run (ts_vstd_f (NA := NumF64) (DT := IsNoneF64) 4 (Some 2)) false 4 xs
+  = ts_run (ts_vstd_f (NA := NumF64) (DT := IsNoneF64) 50 (Some 2)) false 50 xs /\
+  ts_vminmaxnorm (DT := IsNoneF64) (-0x1.fffffffffffffp+1023)%float 0x1.fffffffffffffp+1023%float true 4 (Some 7) xs
+  = ts_vminmaxnorm (DT := IsNoneF64) (-0x1.fffffffffffffp+1023)%float 0x1.fffffffffffffp+1023%float true 50 (Some 7) xs.
+Proof. intros xs. split; [cbn; lia|]. split; [cbn; lia|]. split; vm_compute; reflexivity. Qed.
+Example C05_example_unequal_lengths :
+  (false = false \/ length [Some 1%R; None; Some 3%R] <= length [Some 2%R; Some 5%R]) /\
+  (true = false \/ length [Some 1%R; None] <= length [Some 2%R; Some 5%R; Some 0%R]) /\
+  check2 true 2 [Some 1%R; None; Some 3%R] [Some 2%R; Some 5%R] = Some GShorter /\
+  check2 false 2 [Some 1%R; None; Some 3%R] [Some 2%R; Some 5%R] = None.
+Proof. split; [left; reflexivity|]. split; [right; cbn; lia|]. split; reflexivity. Qed.
+Example C05_example_below_min_periods_some_nan :
+  ts_vmin (DT := IsNoneOptF64) true 2 (Some 2) [Some nan; None; Some 1%float; Some 2%float]
+  = Done [None; None; None; Some 1%float] /\
+  map (fun i => nvalid_win (DT := IsNoneOptF64) 2 i [Some nan; None; Some 1%float; Some 2%float]) (seq 0 4) = [1; 1; 1; 2] /\
+  self_eq_on (DT := IsNone_option (A := Z)) [Some 1%Z; None].
+Proof. split; [vm_compute; reflexivity|]. split; [vm_compute; reflexivity|apply self_eq_on_Z]. Qed.
+
+Print Assumptions C05_window_zero_every_entry_point.
+Print Assumptions C05_huge_window_same_feature.
+Print Assumptions C05_huge_window_is_expanding.
+Print Assumptions C05_huge_window_moments.
+Print Assumptions C05_huge_window_wma_zscore.
+Print Assumptions C05_huge_window_trend.
+Print Assumptions C05_huge_window_two_series.
+Print Assumptions C05_huge_window_minmaxnorm_resid.
+Print Assumptions C05_huge_window_cmp_family.
+Print Assumptions C05_huge_window_needs_explicit_min_periods.
+Print Assumptions C05_huge_window_not_for_ewm.
+Print Assumptions C05_two_series_every_input.
+Print Assumptions C05_shorter_second_series_iterator_body_fewer_outputs.
+Print Assumptions C05_mask_ts_vcov_any_lengths.
+Print Assumptions C05_mask_ts_vcorr_any_lengths.
+Print Assumptions C05_mask_ts_vregx_any_lengths.
+Print Assumptions C05_mask_ts_vregx_resid_any_lengths.
+Print Assumptions C05_below_min_periods_null_every_carrier_extrema.
+Print Assumptions C05_below_min_periods_null_every_carrier_arg_extrema.
+Print Assumptions C05_below_min_periods_null_every_carrier_minmaxnorm.
+Print Assumptions C05_below_min_periods_null_every_carrier_vfdiff.
+Print Assumptions C05_min_periods_above_window.
+Print Assumptions C05_every_one_series_entry_point_outcome.
